@@ -91,6 +91,12 @@ func RunRetentionCase(seed int64, workDir string) *HistResult {
 		if noLogs {
 			return
 		}
+		if r.Intn(4) == 0 {
+			// a job without any log directory (it never ran a task, or its logs were cleaned up by hand): retention treats
+			// it like every other job
+			res.sit("C12", "job without a log directory")
+			return
+		}
 		for _, t := range tasks {
 			for _, stream := range []string{"stdout", "stderr"} {
 				w, err := out.Writer(id, t, stream)
